@@ -1,5 +1,6 @@
 import HcipyVerif.Lemmas.Fraunhofer
 import HcipyVerif.Lemmas.FourierLink
+import HcipyVerif.Lemmas.FraunhoferSelect
 
 /-!
 # C03 — lens (Fraunhofer) propagation equals the scaled Fourier integral
@@ -458,98 +459,6 @@ theorem fraunhofer_inverse_fft (gy gx : Cfg ℝ ℂ) (oky : AxisOK gy) (okx : Ax
   · rw [hwl]; exact hpos.ne'
   · exact fft2_inverse gy gx oky okx hemu hfy hfx
 
-/-- The transform *defined* as the weighted Fourier sum (`NaiveFourierTransform`; C01 shows that
-`MatrixFourierTransform` and `ZoomFastFourierTransform` compute the same numbers). -/
-noncomputable def naiveTransform (pupil : Grid ι d) (uv : Grid κ d) : FourierTransform ι κ :=
-  { fwd := { toFun := fun E k => fourierSum pupil (uv.pts k) E
-             map_add' := by
-               intro x y; funext k
-               simp only [fourierSum, Pi.add_apply, ← Finset.sum_add_distrib]
-               apply Finset.sum_congr rfl; intro j _; ring
-             map_smul' := by
-               intro a x; funext k
-               simp only [fourierSum, Pi.smul_apply, smul_eq_mul, RingHom.id_apply, Finset.mul_sum]
-               apply Finset.sum_congr rfl; intro j _; ring }
-    bwd := { toFun := fun G j => (((2 * Real.pi) ^ d : ℝ) : ℂ)⁻¹ *
-                ∑ k, G k * (uv.weights k : ℂ) * cexp (I * ((dot (uv.pts k) (pupil.pts j) : ℝ) : ℂ))
-             map_add' := by
-               intro x y; funext j
-               simp only [Pi.add_apply, ← mul_add, ← Finset.sum_add_distrib]
-               congr 1
-               apply Finset.sum_congr rfl; intro k _; ring
-             map_smul' := by
-               intro a x; funext j
-               simp only [Pi.smul_apply, smul_eq_mul, RingHom.id_apply, Finset.mul_sum]
-               apply Finset.sum_congr rfl; intro k _; ring } }
-
-/-- What `make_fourier_transform` does for a lens: the FFT (model) at the wavelength for which the focal grid
-is FFT-native, the defining sum at every other wavelength. -/
-noncomputable def autoPropagator (gy gx : Cfg ℝ ℂ) (oky : AxisOK gy) (okx : AxisOK gx) (hemu : gy.emu = gx.emu)
-    (f lam0 : ℝ) : Propagator (Fin gy.N × Fin gx.N) (Fin gy.Mo × Fin gx.Mo) 2 := by
-  classical
-  exact
-  { pupil := pupilGrid2 gy gx
-    focal := (uvGrid2 gy gx).scaled (uvScaleR lam0 f)⁻¹
-    focalLength := fun _ => f
-    ft := fun lam => if lam = lam0 then fftTransform2 gy gx oky okx hemu
-      else naiveTransform (pupilGrid2 gy gx) (((uvGrid2 gy gx).scaled (uvScaleR lam0 f)⁻¹).scaled (uvScaleR lam f)) }
-
-/-- **`Propagator.TransformsCorrect` discharged**: every wavelength, FFT branch by C01. -/
-theorem autoPropagator_transformsCorrect (gy gx : Cfg ℝ ℂ) (oky : AxisOK gy) (okx : AxisOK gx)
-    (hemu : gy.emu = gx.emu) (f lam0 : ℝ) (hpos : 0 < lam0 * f) :
-    (autoPropagator gy gx oky okx hemu f lam0).TransformsCorrect := by
-  intro lam
-  by_cases h : lam = lam0
-  · subst h
-    have hu : (autoPropagator gy gx oky okx hemu f lam).uvGrid lam = uvGrid2 gy gx :=
-      fftPropagator_uvGrid gy gx oky okx hemu f lam hpos
-    rw [hu]
-    have hft : (autoPropagator gy gx oky okx hemu f lam).ft lam = fftTransform2 gy gx oky okx hemu := by
-      unfold autoPropagator; simp
-    rw [hft]
-    exact fft2_evaluates gy gx oky okx hemu
-  · have hft : (autoPropagator gy gx oky okx hemu f lam0).ft lam
-        = naiveTransform (pupilGrid2 gy gx) (((uvGrid2 gy gx).scaled (uvScaleR lam0 f)⁻¹).scaled (uvScaleR lam f)) := by
-      unfold autoPropagator; simp [h]
-    rw [hft]
-    intro E k
-    rfl
-
-/-- **`fraunhofer_eq_integral` with no hypothesis left**, every wavelength, every wavefront. -/
-theorem fraunhofer_eq_integral_auto (gy gx : Cfg ℝ ℂ) (oky : AxisOK gy) (okx : AxisOK gx) (hemu : gy.emu = gx.emu)
-    (f lam0 : ℝ) (hpos : 0 < lam0 * f) (wf : Wavefront (Fin gy.N × Fin gx.N) τ) (t : τ)
-    (k : Fin gy.Mo × Fin gx.Mo) :
-    ((autoPropagator gy gx oky okx hemu f lam0).forward wf).field t k
-      = 1 / (I * (wf.wavelength : ℂ) * (f : ℂ))
-        * ∑ j, wf.field t j * ((gy.δ * gx.δ : ℝ) : ℂ)
-            * cexp (-(2 * (Real.pi : ℂ) * I
-                * ((dot ((autoPropagator gy gx oky okx hemu f lam0).focal.pts k) ((pupilGrid2 gy gx).pts j) : ℝ) : ℂ))
-                / ((wf.wavelength : ℂ) * (f : ℂ))) :=
-  fraunhofer_eq_integral (autoPropagator gy gx oky okx hemu f lam0)
-    (autoPropagator_transformsCorrect gy gx oky okx hemu f lam0 hpos) wf t k
-
-/-- `EvaluatesAdjointSum` for the propagator of `make_fourier_transform`'s choices, every wavelength:
-FFT branch by C01/C02 (`fft2_adjoint`), defining-sum branch by definition. -/
-theorem autoPropagator_adjointCorrect (gy gx : Cfg ℝ ℂ) (oky : AxisOK gy) (okx : AxisOK gx)
-    (hemu : gy.emu = gx.emu) (f lam0 : ℝ) (hpos : 0 < lam0 * f) (lam : ℝ) :
-    EvaluatesAdjointSum ((autoPropagator gy gx oky okx hemu f lam0).ft lam)
-      (autoPropagator gy gx oky okx hemu f lam0).pupil ((autoPropagator gy gx oky okx hemu f lam0).uvGrid lam) := by
-  by_cases h : lam = lam0
-  · subst h
-    have hu : (autoPropagator gy gx oky okx hemu f lam).uvGrid lam = uvGrid2 gy gx :=
-      fftPropagator_uvGrid gy gx oky okx hemu f lam hpos
-    rw [hu]
-    have hft : (autoPropagator gy gx oky okx hemu f lam).ft lam = fftTransform2 gy gx oky okx hemu := by
-      unfold autoPropagator; simp
-    rw [hft]
-    exact fft2_adjoint gy gx oky okx hemu
-  · have hft : (autoPropagator gy gx oky okx hemu f lam0).ft lam
-        = naiveTransform (pupilGrid2 gy gx) (((uvGrid2 gy gx).scaled (uvScaleR lam0 f)⁻¹).scaled (uvScaleR lam f)) := by
-      unfold autoPropagator; simp [h]
-    rw [hft]
-    intro G j
-    rfl
-
 /-- **`fraunhofer_backward_eq_adjoint_integral` for the FFT model**: on every consistent FFT grid
 (cropped or not, either shift setting) `backward` is the adjoint Fourier integral
 `i/(λf)·Σ_x E(x) w_focal(x) exp(+2πi x·u/(λf))`. -/
@@ -572,52 +481,209 @@ theorem fraunhofer_backward_eq_adjoint_integral_fft (gy gx : Cfg ℝ ℂ) (oky :
   rw [hwl] at h
   exact h
 
-/-- … and with no hypothesis about the transform at all: every wavelength with `λ f > 0`. -/
-theorem fraunhofer_backward_eq_adjoint_integral_auto (gy gx : Cfg ℝ ℂ) (oky : AxisOK gy) (okx : AxisOK gx)
-    (hemu : gy.emu = gx.emu) (f lam0 : ℝ) (hpos : 0 < lam0 * f)
-    (wg : Wavefront (Fin gy.Mo × Fin gx.Mo) τ) (hwpos : 0 < wg.wavelength * f) (t : τ) (j : Fin gy.N × Fin gx.N) :
-    ((autoPropagator gy gx oky okx hemu f lam0).backward wg).field t j
-      = I / ((wg.wavelength : ℂ) * (f : ℂ))
-        * ∑ k, wg.field t k * ((autoPropagator gy gx oky okx hemu f lam0).focal.weights k : ℂ)
-            * cexp (2 * (Real.pi : ℂ) * I
-                * ((dot ((autoPropagator gy gx oky okx hemu f lam0).focal.pts k) ((pupilGrid2 gy gx).pts j) : ℝ) : ℂ)
-                / ((wg.wavelength : ℂ) * (f : ℂ))) :=
-  fraunhofer_backward_eq_adjoint_integral (autoPropagator gy gx oky okx hemu f lam0) wg hwpos
-    (autoPropagator_adjointCorrect gy gx oky okx hemu f lam0 hpos wg.wavelength) t j
 
-/-- Assigning a new (constant) focal length `f₂` to the propagator and rebuilding its transforms gives the
-propagator of the new focal length: the focal grid is then FFT-native at `λ₀ f / f₂`. -/
-theorem autoPropagator_setFocalLength (gy gx : Cfg ℝ ℂ) (oky : AxisOK gy) (okx : AxisOK gx)
-    (hemu : gy.emu = gx.emu) (f lam0 f2 : ℝ) (hf2 : f2 ≠ 0) :
-    (autoPropagator gy gx oky okx hemu f lam0).setFocalLength (fun _ => f2)
-        (autoPropagator gy gx oky okx hemu f2 (lam0 * f / f2)).ft
-      = autoPropagator gy gx oky okx hemu f2 (lam0 * f / f2) := by
-  have hs : uvScaleR (lam0 * f / f2) f2 = uvScaleR lam0 f := by
-    unfold uvScaleR
-    congr 1
-    field_simp
-  unfold Propagator.setFocalLength autoPropagator
-  simp only [hs]
+/-! ## the MFT model of C01 — the path lens propagators take for every grid of `make_focal_grid`
 
-/-- **`fraunhofer_eq_integral_after_set` with no hypothesis left**: after `focal_length = f₂` the forward
-propagation is the Fourier integral for `f₂`, at every wavelength. -/
-theorem fraunhofer_eq_integral_after_set_auto (gy gx : Cfg ℝ ℂ) (oky : AxisOK gy) (okx : AxisOK gx)
-    (hemu : gy.emu = gx.emu) (f lam0 f2 : ℝ) (hpos : 0 < lam0 * f) (hf2 : f2 ≠ 0)
-    (wf : Wavefront (Fin gy.N × Fin gx.N) τ) (t : τ) (k : Fin gy.Mo × Fin gx.Mo) :
-    (((autoPropagator gy gx oky okx hemu f lam0).setFocalLength (fun _ => f2)
-        (autoPropagator gy gx oky okx hemu f2 (lam0 * f / f2)).ft).forward wf).field t k
-      = 1 / (I * (wf.wavelength : ℂ) * (f2 : ℂ))
-        * ∑ j, wf.field t j * ((pupilGrid2 gy gx).weights j : ℂ)
-            * cexp (-(2 * (Real.pi : ℂ) * I
-                * ((dot ((autoPropagator gy gx oky okx hemu f lam0).focal.pts k) ((pupilGrid2 gy gx).pts j) : ℝ) : ℂ))
-                / ((wf.wavelength : ℂ) * (f2 : ℂ))) := by
-  have hT : ((autoPropagator gy gx oky okx hemu f lam0).setFocalLength (fun _ => f2)
-      (autoPropagator gy gx oky okx hemu f2 (lam0 * f / f2)).ft).TransformsCorrect := by
-    rw [autoPropagator_setFocalLength gy gx oky okx hemu f lam0 f2 hf2]
-    apply autoPropagator_transformsCorrect
-    have : lam0 * f / f2 * f2 = lam0 * f := by field_simp
-    rw [this]; exact hpos
-  exact fraunhofer_eq_integral_after_set (autoPropagator gy gx oky okx hemu f lam0) (fun _ => f2) _ hT wf t k
+`mftPropagator` is a Fraunhofer propagator between **any two separated Cartesian grids** (regular or not,
+arbitrary weights): per wavelength `make_instance` builds `MatrixFourierTransform(pupil, focal.scaled(2π/(λf)))`,
+modelled by `mftTransform2` (C01's `mftForward`/`mftBackward`: the two `gemm` products with their transposes,
+either weight branch) with output coordinates in units of 2π, `X/(λ f)` — the very function the driver runs at
+`Rat`/`PSum` (`Model/FraunhoferPipe.lean`, op `lens`).  No Fourier hypothesis, no restriction on the wavelength. -/
+
+/-- `FraunhoferPropagator(pupil, focal, f)` whose transform is the MFT model at every wavelength.
+`w` = `weights_input`, `wOut lam` = `weights_output` of the instance for `lam`. -/
+noncomputable def mftPropagator {Ny Nx Nv Nu : ℕ} (x y X Y : ℕ → ℝ) (wp : Fin Ny × Fin Nx → ℝ)
+    (wf : Fin Nv × Fin Nu → ℝ) (f : ℝ → ℝ) (w : Weights ℂ) (wOut : ℝ → Weights ℂ) :
+    Propagator (Fin Ny × Fin Nx) (Fin Nv × Fin Nu) 2 :=
+  { pupil := sepGrid x y wp
+    focal := sepGrid X Y wf
+    focalLength := f
+    ft := fun lam => mftTransform2 Nx Ny Nu Nv x y (fun k => X k / (lam * f lam)) (fun k => Y k / (lam * f lam))
+      w (wOut lam) }
+
+theorem uvScaleR_eq (lam f : ℝ) : uvScaleR lam f = 2 * Real.pi / (lam * f) := by
+  unfold uvScaleR; rw [mul_comm f lam]
+
+/-- the uv grid of the instance is the separated grid with coordinates `2π·X/(λf)` -/
+theorem mftPropagator_uvGrid {Ny Nx Nv Nu : ℕ} (x y X Y : ℕ → ℝ) (wp : Fin Ny × Fin Nx → ℝ)
+    (wf : Fin Nv × Fin Nu → ℝ) (f : ℝ → ℝ) (w : Weights ℂ) (wOut : ℝ → Weights ℂ) (lam : ℝ) :
+    (mftPropagator x y X Y wp wf f w wOut).uvGrid lam
+      = sepGrid (fun i => 2 * Real.pi * (X i / (lam * f lam))) (fun i => 2 * Real.pi * (Y i / (lam * f lam)))
+          (fun k => |2 * Real.pi / (lam * f lam)| ^ 2 * wf k) := by
+  unfold Propagator.uvGrid mftPropagator Grid.scaled sepGrid
+  simp only [uvScaleR_eq]
+  congr 1
+  funext k i
+  fin_cases i
+  · simp; ring
+  · simp; ring
+
+/-- **`Propagator.TransformsCorrect` discharged for the MFT model** (C01 `mft_eq_sum_2d`, either weight branch):
+every wavelength, every focal length function, every pair of separated grids. -/
+theorem mftPropagator_transformsCorrect {Ny Nx Nv Nu : ℕ} (x y X Y : ℕ → ℝ) (wp : Fin Ny × Fin Nx → ℝ)
+    (wf : Fin Nv × Fin Nu → ℝ) (f : ℝ → ℝ) (w : Weights ℂ) (wOut : ℝ → Weights ℂ)
+    (hw : ∀ p : Fin Ny × Fin Nx, w.get (p.1 * Nx + p.2) = ((wp p : ℝ) : ℂ)) :
+    (mftPropagator x y X Y wp wf f w wOut).TransformsCorrect := by
+  intro lam
+  rw [mftPropagator_uvGrid]
+  exact mft2_evaluates _ _ _ _ _ _ _ _ _ _ _ _ hw
+
+/-- **`fraunhofer_eq_integral` for the MFT model — no hypothesis about the transform**: for every pair of
+separated Cartesian grids (both focal-grid constructors, hand-made regular, separated), every wavelength, every
+(wavelength-dependent) focal length, every tensor component and focal point. -/
+theorem fraunhofer_eq_integral_mft {Ny Nx Nv Nu : ℕ} (x y X Y : ℕ → ℝ) (wp : Fin Ny × Fin Nx → ℝ)
+    (wf : Fin Nv × Fin Nu → ℝ) (f : ℝ → ℝ) (w : Weights ℂ) (wOut : ℝ → Weights ℂ)
+    (hw : ∀ p : Fin Ny × Fin Nx, w.get (p.1 * Nx + p.2) = ((wp p : ℝ) : ℂ))
+    (wfr : Wavefront (Fin Ny × Fin Nx) τ) (t : τ) (k : Fin Nv × Fin Nu) :
+    ((mftPropagator x y X Y wp wf f w wOut).forward wfr).field t k
+      = 1 / (I * (wfr.wavelength : ℂ) * (f wfr.wavelength : ℂ))
+        * ∑ j : Fin Ny × Fin Nx, wfr.field t j * (wp j : ℂ)
+            * cexp (-(2 * (Real.pi : ℂ) * I * ((dot ![X k.2, Y k.1] ![x j.2, y j.1] : ℝ) : ℂ))
+                / ((wfr.wavelength : ℂ) * (f wfr.wavelength : ℂ))) :=
+  fraunhofer_eq_integral (mftPropagator x y X Y wp wf f w wOut)
+    (mftPropagator_transformsCorrect x y X Y wp wf f w wOut hw) wfr t k
+
+/-- **backward of the MFT model is the adjoint Fourier integral** (C01 `mft_backward_eq_sum_2d'`), `λ f > 0`,
+when the instance holds `weights_output = uv.weights/(2π)²`. -/
+theorem fraunhofer_backward_eq_adjoint_integral_mft {Ny Nx Nv Nu : ℕ} (x y X Y : ℕ → ℝ)
+    (wp : Fin Ny × Fin Nx → ℝ) (wf : Fin Nv × Fin Nu → ℝ) (f : ℝ → ℝ) (w : Weights ℂ) (wOut : ℝ → Weights ℂ)
+    (wg : Wavefront (Fin Nv × Fin Nu) τ) (hpos : 0 < wg.wavelength * f wg.wavelength)
+    (hwo : ∀ k : Fin Nv × Fin Nu, (wOut wg.wavelength).get (k.1 * Nu + k.2)
+      = ((|2 * Real.pi / (wg.wavelength * f wg.wavelength)| ^ 2 * wf k : ℝ) : ℂ) / (((2 * Real.pi) ^ 2 : ℝ) : ℂ))
+    (t : τ) (j : Fin Ny × Fin Nx) :
+    ((mftPropagator x y X Y wp wf f w wOut).backward wg).field t j
+      = I / ((wg.wavelength : ℂ) * (f wg.wavelength : ℂ))
+        * ∑ k : Fin Nv × Fin Nu, wg.field t k * (wf k : ℂ)
+            * cexp (2 * (Real.pi : ℂ) * I * ((dot ![X k.2, Y k.1] ![x j.2, y j.1] : ℝ) : ℂ)
+                / ((wg.wavelength : ℂ) * (f wg.wavelength : ℂ))) := by
+  apply fraunhofer_backward_eq_adjoint_integral (mftPropagator x y X Y wp wf f w wOut) wg hpos
+  rw [mftPropagator_uvGrid]
+  exact mft2_adjoint _ _ _ _ _ _ _ _ _ _ _ _ hwo
+
+/-- the weight hypothesis is satisfiable for every grid: the array branch with the grid's own weights … -/
+example {Ny Nx : ℕ} (wp : Fin Ny × Fin Nx → ℝ) :
+    ∃ w : Weights ℂ, ∀ p : Fin Ny × Fin Nx, w.get (p.1 * Nx + p.2) = ((wp p : ℝ) : ℂ) :=
+  ⟨.array (flat2 fun p => ((wp p : ℝ) : ℂ)), fun p => by
+    show flat2 _ (p.1 * Nx + p.2) = _
+    rw [flat2_flat _ p.1 p.2.2, ext2_apply]⟩
+
+/-- … and the scalar branch when all weights are equal (regular grids). -/
+example {Ny Nx : ℕ} (w0 : ℝ) :
+    ∀ p : Fin Ny × Fin Nx, (Weights.scalar ((w0 : ℝ) : ℂ)).get (p.1 * Nx + p.2) = (((fun _ => w0) p : ℝ) : ℂ) :=
+  fun _ => rfl
+
+/-! ## the transform `make_fourier_transform` selects, every wavelength
+
+`lensPropagator`: two regular Cartesian grids; per wavelength the transform is the constructor call on the method
+that C01's model of `make_fourier_transform` (`FftSelect.choose detectFix`) selects for the scaled grid
+(`Lemmas/FraunhoferSelect.lean`): the FFT model when the uv grid is FFT-native at that wavelength **and** the
+planner prefers it, the MFT model otherwise.  The planner's float comparison is the oracle `cheaper : ℝ → Bool`
+(any function).  Both branches are models of code, proved by C01; none is the specification. -/
+
+/-- `FraunhoferPropagator(pupil, focal, f)` on regular grids with `make_fourier_transform`'s selection. -/
+noncomputable def lensPropagator (py px Fy Fx : RegAxis) (f : ℝ → ℝ) (cheaper : ℝ → Bool) (emu : Bool) :
+    Propagator (Fin py.n × Fin px.n) (Fin Fy.n × Fin Fx.n) 2 :=
+  { pupil := regGrid2 py px
+    focal := regGrid2 Fy Fx
+    focalLength := f
+    ft := fun lam => lensTransform py px Fy Fx (lam * f lam) (cheaper lam) emu }
+
+theorem lensPropagator_uvGrid (py px Fy Fx : RegAxis) (f : ℝ → ℝ) (cheaper : ℝ → Bool) (emu : Bool) (lam : ℝ) :
+    (lensPropagator py px Fy Fx f cheaper emu).uvGrid lam = (regGrid2 Fy Fx).scaled (2 * Real.pi / (lam * f lam)) := by
+  unfold Propagator.uvGrid lensPropagator
+  simp only [uvScaleR_eq]
+
+/-- **`Propagator.TransformsCorrect` discharged for the selected transform**: every wavelength, whichever
+method is selected there (FFT branch: C01 `fast_forward_eq_sum_2d`; MFT branch: C01 `mft_eq_sum_2d`). -/
+theorem lensPropagator_transformsCorrect (py px Fy Fx : RegAxis) (f : ℝ → ℝ) (cheaper : ℝ → Bool) (emu : Bool) :
+    (lensPropagator py px Fy Fx f cheaper emu).TransformsCorrect := by
+  intro lam
+  rw [lensPropagator_uvGrid]
+  exact lensTransform_evaluates _ _ _ _ _ _ _
+
+/-- **`fraunhofer_eq_integral` for the selected transform**: regular pupil and focal grids of any size, spacing
+and position, every wavelength and focal-length function, every outcome of the planner, both shift settings. -/
+theorem fraunhofer_eq_integral_sel (py px Fy Fx : RegAxis) (f : ℝ → ℝ) (cheaper : ℝ → Bool) (emu : Bool)
+    (wf : Wavefront (Fin py.n × Fin px.n) τ) (t : τ) (k : Fin Fy.n × Fin Fx.n) :
+    ((lensPropagator py px Fy Fx f cheaper emu).forward wf).field t k
+      = 1 / (I * (wf.wavelength : ℂ) * (f wf.wavelength : ℂ))
+        * ∑ j : Fin py.n × Fin px.n, wf.field t j * ((py.δ * px.δ : ℝ) : ℂ)
+            * cexp (-(2 * (Real.pi : ℂ) * I * ((dot ![Fx.x k.2, Fy.x k.1] ![px.x j.2, py.x j.1] : ℝ) : ℂ))
+                / ((wf.wavelength : ℂ) * (f wf.wavelength : ℂ))) :=
+  fraunhofer_eq_integral (lensPropagator py px Fy Fx f cheaper emu)
+    (lensPropagator_transformsCorrect py px Fy Fx f cheaper emu) wf t k
+
+/-- **backward = adjoint integral for the selected transform**, `λ f > 0`. -/
+theorem fraunhofer_backward_eq_adjoint_integral_sel (py px Fy Fx : RegAxis) (f : ℝ → ℝ) (cheaper : ℝ → Bool)
+    (emu : Bool) (wg : Wavefront (Fin Fy.n × Fin Fx.n) τ) (hpos : 0 < wg.wavelength * f wg.wavelength)
+    (t : τ) (j : Fin py.n × Fin px.n) :
+    ((lensPropagator py px Fy Fx f cheaper emu).backward wg).field t j
+      = I / ((wg.wavelength : ℂ) * (f wg.wavelength : ℂ))
+        * ∑ k : Fin Fy.n × Fin Fx.n, wg.field t k * ((Fy.δ * Fx.δ : ℝ) : ℂ)
+            * cexp (2 * (Real.pi : ℂ) * I * ((dot ![Fx.x k.2, Fy.x k.1] ![px.x j.2, py.x j.1] : ℝ) : ℂ)
+                / ((wg.wavelength : ℂ) * (f wg.wavelength : ℂ))) := by
+  apply fraunhofer_backward_eq_adjoint_integral (lensPropagator py px Fy Fx f cheaper emu) wg hpos
+  rw [lensPropagator_uvGrid]
+  exact lensTransform_adjoint _ _ _ _ _ _ _
+
+/-- **`fraunhofer_power` whichever transform is selected**: when the focal grid is a full conjugate of the pupil
+grid at the wavelength of the wavefront (`FullAt`: `Mo·δ·Δ = λ f`, `N ≤ Mo` on both axes; any position). -/
+theorem fraunhofer_power_sel (py px Fy Fx : RegAxis) (f : ℝ → ℝ) (cheaper : ℝ → Bool) (emu : Bool)
+    (wf : Wavefront (Fin py.n × Fin px.n) τ) (hpos : 0 < wf.wavelength * f wf.wavelength)
+    (hfull : FullAt py px Fy Fx (wf.wavelength * f wf.wavelength)) :
+    ∑ t, power (regGrid2 Fy Fx).weights (((lensPropagator py px Fy Fx f cheaper emu).forward wf).field t)
+      = ∑ t, power (regGrid2 py px).weights (wf.field t) := by
+  apply fraunhofer_power (lensPropagator py px Fy Fx f cheaper emu) wf hpos
+  rw [lensPropagator_uvGrid]
+  exact lensTransform_parseval hfull _ _
+
+/-- … Jones-matrix wavefronts with a Stokes vector. -/
+theorem fraunhofer_stokes_power_sel (py px Fy Fx : RegAxis) (f : ℝ → ℝ) (cheaper : ℝ → Bool) (emu : Bool)
+    (wf : Wavefront (Fin py.n × Fin px.n) (Fin 2 × Fin 2)) (S : Fin 4 → ℝ)
+    (hpos : 0 < wf.wavelength * f wf.wavelength)
+    (hfull : FullAt py px Fy Fx (wf.wavelength * f wf.wavelength)) :
+    stokesPower (regGrid2 Fy Fx).weights S ((lensPropagator py px Fy Fx f cheaper emu).forward wf).field
+      = stokesPower (regGrid2 py px).weights S wf.field := by
+  apply fraunhofer_stokes_power (lensPropagator py px Fy Fx f cheaper emu) wf S hpos
+  rw [lensPropagator_uvGrid]
+  exact lensTransform_parseval hfull _ _
+
+/-- **`fraunhofer_inverse` whichever transform is selected** on a full conjugate. -/
+theorem fraunhofer_inverse_sel (py px Fy Fx : RegAxis) (f : ℝ → ℝ) (cheaper : ℝ → Bool) (emu : Bool)
+    (wf : Wavefront (Fin py.n × Fin px.n) τ) (hne : wf.wavelength * f wf.wavelength ≠ 0)
+    (hfull : FullAt py px Fy Fx (wf.wavelength * f wf.wavelength)) :
+    (lensPropagator py px Fy Fx f cheaper emu).backward ((lensPropagator py px Fy Fx f cheaper emu).forward wf) = wf :=
+  fraunhofer_inverse (lensPropagator py px Fy Fx f cheaper emu) wf hne (lensTransform_inverse hfull _ _)
+
+/-- After `prop.focal_length = g` (cache cleared, transforms rebuilt by `make_instance`) the object is the
+propagator of the new focal length … -/
+theorem lensPropagator_setFocalLength (py px Fy Fx : RegAxis) (f g : ℝ → ℝ) (cheaper : ℝ → Bool) (emu : Bool) :
+    (lensPropagator py px Fy Fx f cheaper emu).setFocalLength g (lensPropagator py px Fy Fx g cheaper emu).ft
+      = lensPropagator py px Fy Fx g cheaper emu := rfl
+
+/-- … hence forward is the Fourier integral for the **new** focal length (constant or callable), every wavelength. -/
+theorem fraunhofer_eq_integral_after_set_sel (py px Fy Fx : RegAxis) (f g : ℝ → ℝ) (cheaper : ℝ → Bool) (emu : Bool)
+    (wf : Wavefront (Fin py.n × Fin px.n) τ) (t : τ) (k : Fin Fy.n × Fin Fx.n) :
+    (((lensPropagator py px Fy Fx f cheaper emu).setFocalLength g
+        (lensPropagator py px Fy Fx g cheaper emu).ft).forward wf).field t k
+      = 1 / (I * (wf.wavelength : ℂ) * (g wf.wavelength : ℂ))
+        * ∑ j : Fin py.n × Fin px.n, wf.field t j * ((py.δ * px.δ : ℝ) : ℂ)
+            * cexp (-(2 * (Real.pi : ℂ) * I * ((dot ![Fx.x k.2, Fy.x k.1] ![px.x j.2, py.x j.1] : ℝ) : ℂ))
+                / ((wf.wavelength : ℂ) * (g wf.wavelength : ℂ))) := by
+  rw [lensPropagator_setFocalLength]
+  exact fraunhofer_eq_integral_sel py px Fy Fx g cheaper emu wf t k
+
+/-- Non-vacuity of `FullAt` / `NativeAt`: pupil `2×2`, `δ = 1/2`; focal `4×4`, `Δ = 1/2`; `λ f = 1`. -/
+example : FullAt ⟨2, 1 / 2, 0⟩ ⟨2, 1 / 2, 0⟩ ⟨4, 1 / 2, -1⟩ ⟨4, 1 / 2, -1⟩ 1 := by
+  refine ⟨one_ne_zero, ⟨?_, ?_, ?_⟩, ⟨?_, ?_, ?_⟩⟩ <;> norm_num
+
+/-- … and a wavelength at which the same grids are *not* native (`λ f = 1/2`: `M = 2 < Mo = 4`), so the selected
+transform there is the MFT model (`lensTransform_mft_not_native`). -/
+example : ¬ NativeAt ⟨2, 1 / 2, 0⟩ ⟨2, 1 / 2, 0⟩ ⟨4, 1 / 2, -1⟩ ⟨4, 1 / 2, -1⟩ (1 / 2) := by
+  rintro ⟨_, My, Mx, ⟨_, h2, h3⟩, _⟩
+  have h4 : (4 : ℝ) ≤ (My : ℝ) := by exact_mod_cast h2
+  norm_num at h3
+  linarith
 
 /-- Non-vacuity: a consistent full pair exists (`N = 2`, `M = Mo = 4`, `δ = 1/2`, `dT = 1/2` on both axes). -/
 example : ∃ g : Cfg ℝ ℂ, AxisOK g ∧ g.Mo = g.M :=
